@@ -209,7 +209,10 @@ def sign(case, out):
 
 def _keyset(case):
     ''' Which fixture key set the source signs with: 0, or 2 (P-256 only: a public coordinate with a leading zero octet). '''
-    return 2 if case.get('keyset') == 2 and case.get('alg') == -7 else 0
+    # (only where the source really is configured from files: see sign())
+    from_files = case.get('via_files') and case.get('direction') == 'S' and case.get('targets') == ['payload'] \
+        and (case.get('identity') or 'own') == 'own'
+    return 2 if from_files and case.get('keyset') == 2 and case.get('alg') == -7 else 0
 
 
 def receive(bundle_or_wire, alg, key_override=None, no_key=False, kid='k-mac-1', via_files=False, keyset=0):
